@@ -135,6 +135,17 @@ def run(tier):
         exp = i % 3 == 0
         g = gen_doc.Gen(rng, depth=3, experimental=exp)
         texts.append((gen_doc.join_random(g.document(), rng, 0.3), exp))
+    # definitions whose optional trailing block is absent, followed by every kind of operation/definition
+    heads = ["enum E", "input I", "type A", "type A implements I", "interface I", "extend schema @d", "extend type A @d",
+             "extend enum E @d", "extend input I @d", "extend interface I @d", "scalar S", "union U", "union U = A | B",
+             "directive @d on FIELD", "extend scalar S @d", "extend union U @d", "schema { query: Q }", "fragment F on T { x }",
+             '"""d""" type A @d(a: {x: 1})', "type A { f(a: I = {x: 1}): T }"]
+    tails = ["query { a }", "{ a }", "query { a: b }", "query { query: Q }", "mutation { a }", "query Q { a }", "query @d { a }",
+             "subscription { a }", "fragment G on T { a }", "enum F { A }"]
+    for h in heads:
+        for tl in tails:
+            texts.append((h + " " + tl, False))
+            texts.append((tl + " " + h + " " + tl, False))
     nd = 0
     for t, exp in texts:
         opts = parse_opts(exp)
